@@ -201,7 +201,13 @@ impl Property for C20 {
       }
       let aa = serde_json::to_value(&r.aggregations).unwrap_or(Value::Null);
       let ab = serde_json::to_value(&plain.aggregations).unwrap_or(Value::Null);
-      if !crate::props::c13::json_close(&aa, &ab) {
+      // f32 hit scores inside top_hits follow the score tolerance / tie rule of DESIGN §8
+      let score_ties = case.aggs.as_ref().map(crate::props::c13::top_hits_orders_by_score).unwrap_or(false);
+      let cmp = crate::props::c13::agg_cmp(&aa, &ab, score_ties);
+      if cmp == crate::props::c13::AggEq::NearTie {
+        out.class("top_hits-near-tie-not-judged");
+      }
+      if cmp == crate::props::c13::AggEq::Different {
         out.fail("aggregations-changed", format!("{what}: aggregations {aa} vs {ab}; request {req}"));
         return out;
       }
